@@ -68,14 +68,14 @@ def wasmToks : WVec → List Tok → List String
   | _, [] => []
   | w, .cap :: r => s!"v{wasmCapacity w}" :: wasmToks w r
   | w, .op o :: r =>
-    match wasmVecStep w o with
+    match wasmVecStep i31wrap w o with
     | (_, .fail m) => [showRes (if m == "null" then "T" else "P") (.fail m)]
     | (w', x) => showRes "P" x :: wasmToks w' r
 
 def parseElems (s : String) : Option (List Int) :=
   if s == "-" then some [] else (s.splitOn ",").mapM String.toInt?
 
-def wasmOfList (l : List Int) : WVec := l.foldl (fun w v => (wasmVecStep w (.push v)).1) WVec.empty
+def wasmOfList (l : List Int) : WVec := l.foldl (fun w v => (wasmVecStep i31wrap w (.push v)).1) WVec.empty
 
 def asciiString (l : List Nat) : String := String.ofList (l.map Char.ofNat)
 
@@ -113,13 +113,47 @@ def step (_ : Unit) (line : String) : Unit × String :=
     let (init, toks) : Option (List Int × WVec) × List String := match toks with
       | c :: r =>
         match c.splitOn ":" with
-        | ["new", "of", v] => (v.toInt?.map fun v => (tsVecOf v, wasmVecOf v), r)
+        | ["new", "of", v] => (v.toInt?.map fun v => (tsVecOf v, wasmVecOf i31wrap v), r)
         | ["new", "cap", n] => ((n.toInt?.bind wasmVecWithCapacity).map fun w => ([], w), r)
         | _ => (some ([], WVec.empty), toks)
       | [] => (some ([], WVec.empty), toks)
     match init, toks.mapM parseTok with
     | some (t0, w0), some ts =>
       s!"{",".intercalate (tsToks t0 ts)} {",".intercalate (wasmToks w0 ts)}"
+    | _, _ => "bad-op"
+  | ["tag", kind, arg] =>
+    let v : Option (JsV × String) := match kind, arg.toInt? with
+      | "none", _ => some (.num 1, "")
+      | "other", _ => some (.num 3, "")
+      | "box", some n => some (.arr 1 [.num n], toString n)
+      | "vec", some n => some (.arr 1 [.num n], "1")
+      | "vec", none => if arg == "-" then some (.arr 1 [], "0") else none
+      | _, _ => none
+    match v with
+    | none => "bad-op"
+    | some (v, payload) =>
+      let name (k : Option Nat) : String := match k with
+        | some 0 => "snone"
+        | some 1 => "sother"
+        | _ => "ssome " ++ payload
+      let t := firstTag (fun x n => tsRefEq x (.num n)) v 0 2
+      let w := firstTag (fun x n => wasmRefEq (repOf x) (.i31 n)) v 0 2
+      -- a payload-free variant that is not recognised by a tag test would fall to the Some arm;
+      -- cannot happen for `none`/`other` (numbers compare as numbers on both sides)
+      (name t).replace " " "_" ++ " " ++ (name w).replace " " "_"
+  | "vecr" :: toks =>
+    -- reference elements: object k has identity k, nothing is boxed (`box = id`)
+    match toks.mapM parseVOp with
+    | none => "bad-op"
+    | some ops =>
+      let t := tsVecRun [] ops
+      let w := wasmVecRun id WVec.empty ops
+      s!"{",".intercalate (t.map (showRes "P"))} {",".intercalate (w.map (showRes "P"))}"
+  | ["veqr", a, b] =>
+    match parseElems a, parseElems b with
+    | some a, some b =>
+      let wOf (l : List Int) : WVec := l.foldl (fun w v => (wasmVecStep id w (.push v)).1) WVec.empty
+      s!"v{tsVecEq false a b},v{tsVecEq false b a},v{tsVecEq true a a} v{wasmVecEq false (wOf a) (wOf b)},v{wasmVecEq false (wOf b) (wOf a)},v{wasmVecEq true (wOf a) (wOf a)}"
     | _, _ => "bad-op"
   | ["veq", a, b] =>
     match parseElems a, parseElems b with
